@@ -195,26 +195,26 @@ PROPS = {
         "fuzz": [('FuzzC03History', 90)],
         "shards": 12,
         "timeout_quick": 1200,
-        "technique": "stateful property-based testing (rapid): generated population histories with high structural-mutation rates under the sequential (and sometimes the parallel) executor; an innovation ledger kept by the harness over the whole history is the oracle; plus operator histories, and structural mutations interleaved by the harness at the shared calls of the innovation record (one meaning per number under every interleaving)",
+        "technique": "stateful property-based testing (rapid): generated population histories with high structural-mutation rates under the sequential (and sometimes the parallel) executor; an innovation ledger kept by the harness over the whole history is the oracle; plus operator histories, and structural mutations interleaved by the harness at the shared calls of the innovation record (one meaning per number under every interleaving) Sub-check 'forget': the same split of the same gene is performed against the population's record in two consecutive generations (a real turnover in between) and must receive new numbers the second time.",
         "level_text": "Generated epoch histories; after every turnover every gene and node of every organism is entered into a ledger (innovation -> endpoints+flag, node id -> role): a known number must denote the same link, unknown numbers/ids must exceed the maxima before the turnover, "
                       "equal new links must share one number and equal splits one node id within a generation, and the innovation record must be empty afterwards.",
         "level_note": "trusted: the ledger (two maps and two maxima); the split clause identifies a split by (source, target, flag, innovation of the carrier's split gene); parallel runs are covered by C16 for the first two clauses only",
         "rule": "G-epochs scenarios with structural rates biased upwards, recurrent-only probability 0-0.7, small genomes (collisions of identical innovations are frequent), spawn/random/read constructors; a turnover is non-trivial when it issued new innovation numbers; distinct by (epoch, max innovation, max node id, #species, rec+non-rec pair present)",
         "assumptions": ["sequential executor"],
-        "expect_classes": {"wide": ["more than 1024 innovations in one generation"], "interleaved": ["add_node interrupted by another structural mutation (result true)"], "epochs": ["innovation shared by several organisms of one generation", "same split performed by several organisms of one generation", "recurrent and non-recurrent link on the same endpoints", "same link under different numbers in different generations", "turnover issuing new innovation numbers"],
+        "expect_classes": {"forget": ["same split repeated one generation later"], "wide": ["more than 1024 innovations in one generation"], "interleaved": ["add_node interrupted by another structural mutation (result true)"], "epochs": ["innovation shared by several organisms of one generation", "same split performed by several organisms of one generation", "recurrent and non-recurrent link on the same endpoints", "same link under different numbers in different generations", "turnover issuing new innovation numbers"],
                            "history": ["same link invented by several genomes of one generation", "same split performed by several genomes of one generation", "link of an earlier generation invented again under a new number", "end of generation"]},
     },
     "C10": {
         "run": "^TestC10",
         "shards": 12,
         "timeout_quick": 1200,
-        "technique": "stateful property-based testing (rapid): generated population histories with distinct positive fitness; the value snapshot of every species' fittest genome taken before a turnover is searched in the next generation for every species whose final quota exceeds five",
+        "technique": "stateful property-based testing (rapid): generated population histories with distinct positive fitness; the value snapshot of every species' fittest genome taken before a turnover is searched in the next generation for every species whose final quota exceeds five Sub-check 'stepwise': the terminal turnover of a history is run phase by phase through the tag-guarded hooks; the quota is read between the executor's preparation and the reproduction of the species, the champion's copy is searched among the babies.",
         "level_text": "Generated epoch histories of up to 40 (80) turnovers so that champions accumulate hidden nodes and disabled genes, with and without stolen babies and with stagnating fitness (delta coding); "
                       "oracle: existence of a genetically identical genome (every field of the snapshot except the id) in the new generation.",
         "level_note": "trusted: snapshot equality M2; the quota is read from the old species object after the turnover (its final value including stolen babies and delta coding)",
         "rule": "G-epochs scenarios with the 'distinct' and 'stagnating' fitness programs, population 6-40 (100), sequential executor; non-trivial = species with quota > 5 whose champion carries a disabled gene; distinct by (epoch, species id, quota, #genes, #disabled, #recurrent)",
         "assumptions": ["fitness values distinct and positive, so the fittest organism of a species is unique"],
-        "expect_classes": {"epochs": ["species with quota > 5", "quota exactly 6", "champion with disabled genes", "champion with recurrent genes", "quota set by delta coding", "babies stolen configured"]},
+        "expect_classes": {"stepwise": ["species with quota > 5"], "epochs": ["species with quota > 5", "quota exactly 6", "champion with disabled genes", "champion with recurrent genes", "quota set by delta coding", "babies stolen configured"]},
     },
     "C08": {
         "run": "^TestC08",
@@ -260,7 +260,7 @@ PROPS = {
         "level_note": "trusted: the Go race detector (no false positives; races on paths that were not executed stay invisible); schedules are sampled, not enumerated - logical errors that need one particular interleaving are only found by chance; replays re-run a case 5 times",
         "rule": "G-epochs scenarios with the parallel executor, population 3-30 (60), up to 12 (30) epochs, shards run with GOMAXPROCS 16/1/2/4; non-trivial turnover = at least two species (reproduction goroutines) and new innovation numbers issued; distinct by (epoch, #species, #species with innovations, max innovation, size). Interleaved: G-family of 4 related genomes, 1-12 (30) structural mutations each interrupted 0-2 times before its 1st-5th shared call; non-trivial = at least two steps in which an interruption took place",
         "assumptions": ["non-modular genomes (the wire format between the goroutines has no module syntax)", "identical numbers for identical innovations are not required under the parallel executor (C03 promises them for the sequential one)"],
-        "expect_classes": {"parallel": ["species:1", "species:2-5", "species:6+", "turnover with several reproduction goroutines and new innovations", "turnover founding new species", "turnover under a cancelled context returned an error"],
+        "expect_classes": {"parallel": ["population of more than 64 organisms", "species:1", "species:2-5", "species:6+", "turnover with several reproduction goroutines and new innovations", "turnover founding new species", "turnover under a cancelled context returned an error"],
                            "interleaved": ["add_link interrupted by another structural mutation (result true)", "add_node interrupted by another structural mutation (result true)"]},
     },
     "C17": {
